@@ -151,8 +151,8 @@ func c17R1(p *engine.Prog, r *engine.Report, consts map[int64]string, nob map[in
 			continue
 		}
 		key := "determineNewIdentityState|return " + consts[k]
-		r.Check(engine.OnlyThroughPass(f, ret.Block(), gMissed), "C17-R1", key+" only if !missed", p.InstrPos(ret), "dominated by missed == false", "an identity that missed the session can be promoted or left validated ("+consts[k]+")")
-		r.Check(engine.OnlyThroughPass(f, ret.Block(), gFlips), "C17-R1", key+" only if HasDoneAllRequiredFlips", p.InstrPos(ret), "dominated by HasDoneAllRequiredFlips() == true", "an identity lacking its required flips can be promoted or left validated ("+consts[k]+")")
+		r.Check(engine.OnlyThroughPassRet(f, ret, gMissed), "C17-R1", key+" only if !missed", p.InstrPos(ret), "dominated by missed == false", "an identity that missed the session can be promoted or left validated ("+consts[k]+")")
+		r.Check(engine.OnlyThroughPassRet(f, ret, gFlips), "C17-R1", key+" only if HasDoneAllRequiredFlips", p.InstrPos(ret), "dominated by HasDoneAllRequiredFlips() == true", "an identity lacking its required flips can be promoted or left validated ("+consts[k]+")")
 	}
 	// (a') thresholds: every passing return lies behind the session thresholds or the matching
 	// "session not qualified" flag — sibling agreement between the arms of the table. Exceptions are
@@ -198,7 +198,7 @@ func c17R1(p *engine.Prog, r *engine.Report, consts map[int64]string, nob map[in
 			if rk, ok := retConst(ret); ok {
 				got[consts[rk]] = true
 			}
-			if reachNoArm[ret.Block()] && engine.OnlyThroughPass(f, ret.Block(), gFlips) {
+			if reachNoArm[ret.Block()] && engine.OnlyThroughPassRet(f, ret, gFlips) {
 				hitsDefault = true
 			}
 		}
@@ -354,7 +354,7 @@ func c17R5(p *engine.Prog, r *engine.Report) {
 	for _, b := range aa.Blocks {
 		for _, ins := range b.Instrs {
 			if mu, ok := ins.(*ssa.MapUpdate); ok {
-				for v := range engine.BackSlice(mu.Map, engine.DefaultSlice) {
+				for v := range sliceThroughHelpers(mu.Map, aa.Pkg, 2) {
 					if o, f, ok := engine.FieldOf(v); ok && o == "qualification" {
 						written[f] = true
 					}
@@ -507,7 +507,7 @@ func c17Thresholds(p *engine.Prog, r *engine.Report, f *ssa.Function, consts map
 			for _, pr := range [][2]ssa.Value{{x, y}, {y, x}} {
 				if k, isK := engine.ConstInt(pr[1]); isK {
 					if o, fld, okF := engine.FieldOf(engine.Origin(pr[0])); okF && o == "Identity" && fld == "State" {
-						if engine.OnlyThroughPass(f, ret.Block(), []engine.Guard{{If: i, PassTrue: true}}) {
+						if engine.OnlyThroughPassRet(f, ret, []engine.Guard{{If: i, PassTrue: true}}) {
 							names = append(names, consts[k])
 						}
 					}
@@ -553,14 +553,14 @@ func c17Thresholds(p *engine.Prog, r *engine.Report, f *ssa.Function, consts map
 			n++
 			key := "determineNewIdentityState|" + id + " behind the " + t.name + " threshold"
 			if why, isEx := c17ThresholdExceptions[id+"|"+t.name]; isEx {
-				if engine.OnlyThroughPass(f, ret.Block(), t.guards) {
+				if engine.OnlyThroughPassRet(f, ret, t.guards) {
 					r.Bad("C17-R6", key, p.InstrPos(ret), "listed as an exception ("+why+") but the threshold is tested now: remove the exception")
 				} else {
 					r.OK("C17-R6", key, p.InstrPos(ret), "frozen exception: "+why)
 				}
 				continue
 			}
-			r.Check(len(t.guards) > 0 && engine.OnlyThroughPass(f, ret.Block(), t.guards), "C17-R6", key, p.InstrPos(ret), t.what, "an identity coming from "+arm+" is given "+consts[k]+" on a path that tests neither "+t.what+" — its sibling arms do")
+			r.Check(len(t.guards) > 0 && engine.OnlyThroughPassRet(f, ret, t.guards), "C17-R6", key, p.InstrPos(ret), t.what, "an identity coming from "+arm+" is given "+consts[k]+" on a path that tests neither "+t.what+" — its sibling arms do")
 		}
 	}
 	r.Floor("C17-R6", 30, "passing returns × thresholds")
